@@ -22,7 +22,12 @@
    differ.  The harness abstracts the worst mismatch of each block, m = max|A - N| / max(1, max|A|, max|N|), into a
    class (k: m <= 10^k), for several perturbations of the numerical jacobian; a block is exact when SOME perturbation
    gives a class <= BlockClass (an analytical error persists whatever the perturbation; truncation and cancellation
-   errors of the centered differences do not).  The built-in absolute criterion of the generated code is not used as
+   errors of the centered differences do not).  Not judged, because the comparison is then not a comparison of the jacobian
+   with its own finite differences: (i) the iterates of a step whose integration fails; (ii) the initial iterate of a step
+   (all increments zero: exactly on the switching points of max(dp, 0), Macaulay brackets, status tests, where only
+   one-sided derivatives exist); (iii) an iteration in which a plastic flow changes status - the convergence checks switch
+   the flow on or off AFTER the jacobian was evaluated and the generated comparison differentiates the NEW system
+   (recognised by the entry df p / dd p being exactly 1 in one of the two jacobians only).  The built-in absolute criterion of the generated code is not used as
    the verdict because its scale is arbitrary (documented default = the convergence threshold). *)
 EXTENDS BehaviourLab, TLC
 
@@ -131,20 +136,30 @@ One == <<1, 1>>
 PathA == << <<<<2, -1, -1, 1, 0, 0>>, One>>, <<<<4, -2, -2, 2, 1, 0>>, One>>, <<<<4, -1, -3, 1, 2, -1>>, One>>, <<<<2, 2, -4, -1, 1, 2>>, <<1, 4>>>>,
            <<<<-12, 6, 5, -2, 0, 1>>, One>> >>
 \* a path with a positive mean stress (porosity growth, stress based nucleation, Mohr-Coulomb)
-PathB == << <<<<3, 1, 1, 0, 0, 0>>, One>>, <<<<6, -1, 0, 1, 0, 0>>, One>>, <<<<6, 1, -2, 2, 1, 1>>, One>>, <<<<3, 2, 2, 0, 1, 0>>, <<1, 4>>>> >>
+PathB == << <<<<3, 1, 1, 0, 0, 0>>, One>>, <<<<4, -1, 0, 1, 0, 0>>, One>>, <<<<3, 1, -1, 1, 1, 1>>, One>>, <<<<2, 1, 1, 0, 1, 0>>, <<1, 4>>>> >>
 Paths == <<PathA, PathB>>
 \* the paths start from a state with a non-zero equivalent (visco)plastic strain: several hardening rules switch branch at
 \* p = 0 (Swift, Power: constant for p <= 0), where the residual is not differentiable and the centered differences of the
 \* generated code average the two one-sided derivatives
 InitialEquivalentStrain == <<1, 256>>
 \* ... and from a non-zero porosity (the effective porosity f + theta df is clamped at zero: same remark), below the
-\* coalescence porosity f_c = 1/100 of the Gurson-Tvergaard-Needleman criterion
+\* coalescence porosity f_c = 1/20 of the Gurson-Tvergaard-Needleman criterion
 InitialPorosity == <<1, 256>>
+\* ... and from a small non-zero elastic strain: several criteria are not differentiable at zero stress (the first step of
+\* a viscoplastic flow then fails)
+InitialElasticStrain == <<1, 0, -1, 1, 0, 0>>
 \* values of the theta parameter: the default of the Implicit DSL (1/2) and the fully implicit scheme
 Thetas == {<<1, 2>>, <<1, 1>>}
 \* perturbations of the numerical jacobian
 JacobianPerturbations == << <<1, 1000000>>, <<1, 10000000>>, <<1, 100000000>>, <<1, 1000000000>> >>
 BlockClass == -5
+\* An analytical error shows at every iterate where the term is active.  An isolated iterate may sit EXACTLY on a switching
+\* point (porosity projected on its bounds, a threshold of a nucleation law, two principal stresses crossing, the status of
+\* a DDIF2 crack changing after the jacobian was evaluated): there only one-sided derivatives exist and the centered
+\* differences of the generated code average them.  A block is therefore declared inexact when it is off in at least
+\* MinInexactIterations judged iterations of a path AND in at least 1 / InexactShare of the iterations where it was compared.
+MinInexactIterations == 3
+InexactShare == 4
 
 \* ---- meaning of a reported block ------------------------------------------------------------------------------------------
 \* a block name is df<X>_dd<Y>; X, Y are integration variables: eel (elastic strain), p (equivalent strain of the flow),
